@@ -177,13 +177,21 @@ pub fn main(tier: Option<&str>) {
     }
     run.sample(json!({"get_peers_in_range": {"target": "chunk0", "bound": "distance(peer 43) - 1"}}));
 
-    // 4. replication candidates chosen by a real SwarmDriver whose routing table holds the 10 peers
-    {
+    // 4. replication candidates chosen by a real SwarmDriver whose routing table holds (a) the 10 peers, (b) as many of
+    //    119 further peers as its k-buckets take (more than K_VALUE = 20, so that a range can hold more than 20 peers)
+    for big in [false, true] {
         let root = crate::c01::fresh_scratch("c11");
         let mut rig = crate::driver_rig::DriverRig::new_node(1, &root);
-        for (i, _) in peers.iter().enumerate() {
-            let ok = rig.driver.verif_add_peer(peers[i], format!("/ip4/127.0.0.1/udp/{}/quic-v1", 30000 + i).parse().unwrap());
-            assert!(ok, "routing table insert");
+        let offered: Vec<PeerId> = if big { (2u8..=120).map(rigs::fixtures::peer_id).collect() } else { peers.clone() };
+        let mut peers: Vec<PeerId> = vec![];
+        for (i, p) in offered.iter().enumerate() {
+            // a full k-bucket refuses the insert: only peers that got in are known
+            if rig.driver.verif_add_peer(*p, format!("/ip4/127.0.0.1/udp/{}/quic-v1", 30000 + i).parse().unwrap()) {
+                peers.push(*p);
+            }
+        }
+        if peers.len() < if big { 30 } else { 10 } {
+            run.machinery_error(&format!("C11 section 4: only {} of {} peers entered the routing table", peers.len(), offered.len()));
         }
         let me = NetworkAddress::from_peer(rig.peer_id());
         for t in [&me, targets[0], targets[1]] {
@@ -201,13 +209,13 @@ pub fn main(tier: Option<&str>) {
                 let got = rig.driver.verif_get_replicate_candidates(t);
                 let in_range: Vec<PeerId> = reference.iter().zip(dists.iter()).filter(|(_, d)| **d <= b).map(|(p, _)| *p).collect();
                 let want: Vec<PeerId> = if in_range.len() >= CLOSE_GROUP_SIZE { in_range } else { reference.iter().take(CLOSE_GROUP_SIZE).cloned().collect() };
-                run.case(format!("candidates:{t:?}:{b}").as_bytes(), true);
+                run.case(format!("candidates:{big}:{t:?}:{b}").as_bytes(), true);
                 if got != want {
                     run.violation(
                         "replication-candidates",
                         "selection",
                         format!("replication candidates for range bound {b}: got {} peers, expected {} (in range, or the close group when fewer are in range), in ascending distance", got.len(), want.len()),
-                        json!({"op":"replicate-candidates","bound":b.to_string()}),
+                        json!({"op":"replicate-candidates","bound":b.to_string(),"known_peers":peers.len()}),
                     );
                 }
             }
